@@ -315,8 +315,14 @@ func (fc *FnCtx) emitAxioms() {
 		if len(lm.Params) == 0 {
 			t = fc.evalBool(lm.Clause.Expr, &Env{fc: fc, vars: map[string]Val{}, cur: st, old: st})
 		} else if lm.Axiom {
+			fc.pkg = save
 			continue // parameterised axioms are only used through explicit `use` instances
 		} else {
+			if os.Getenv("VERIF_LEMMA_FACTS") == "off" {
+				// (debugging aid) proved lemmas then enter a VC only through `use` instances
+				fc.pkg = save
+				continue
+			}
 			t = fc.lemmaAsFact(lm)
 		}
 		fc.pkg = save
